@@ -114,6 +114,9 @@ class SeqBuilder:
         self.nslots = 0
         self.unk = 0
         self.slot_prefix = ""
+        self.pinned = set()        # local paths that stay symbolic whatever is assigned to them
+        self.probe_id = None       # node id: the environment in force at the statement that contains it is kept in probe_env
+        self.probe_env = None
         SeqBuilder.UID += 1
         self.uid = SeqBuilder.UID
 
@@ -137,6 +140,8 @@ class SeqBuilder:
         k = n["k"]
         p = access_path(f, n)
         if p is not None and k in ("DeclRefExpr", "MemberExpr"):
+            if p in self.pinned:
+                return ("local", p[1])
             if p in self.env:
                 return self.env[p]
             if p[0] == "local":
@@ -426,6 +431,9 @@ class SeqBuilder:
             return
         k = n["k"]
         f = self.f
+        if self.probe_id is not None and self.probe_env is None and k not in ("CompoundStmt", "IfStmt", "ForStmt", "WhileStmt", "DoStmt", "CXXForRangeStmt") \
+                and any(x.get("id") == self.probe_id for x in walk(n)):
+            self.probe_env = dict(self.env)
         if k == "CompoundStmt":
             cs = n.get("c", [])
             for idx, c in enumerate(cs):
@@ -916,6 +924,23 @@ class Mirror:
                         ws = ws[:i] + sp + ws[i + 1:]
                         n -= 1
                         continue
+                # one half moves a pre-encoded buffer (the raw storage of a std::string / std::vector<char> member that other code
+                # filled through a stream): its layout is produced elsewhere and is not modelled - undecided from here on
+                def _blob(it):
+                    pn = getattr(it, "ptr", None)
+                    if it.kind != "bytes" or getattr(it, "scalar", False) or pn is None:
+                        return False
+                    sp_ = strip(pn)
+                    while sp_["k"] in EXPLICIT_CASTS:
+                        sp_ = strip(sp_["sub"])
+                    return sp_["k"] == "CXXMemberCallExpr" and callee_name(sp_) in ("data", "c_str") and \
+                        (sp_.get("frec") or "").startswith(("std::basic_string", "std::vector", "std::__cxx11::basic_string"))
+                if _blob(wi) or _blob(ri):
+                    self.undecided += 1
+                    rep.notes.append("%s / %s: element %s is a pre-encoded buffer on one side (%s) and structured on the other: layout not modelled, "
+                                     "rest of the pair undecided" % (self.w.qn if hasattr(self, "w") else "writer", self.r.qn if hasattr(self, "r") else "reader",
+                                                                     pos, (wi if _blob(wi) else ri).describe()))
+                    return
                 self.viol(pos + ":kind", wi, ri, "image element %s: writer emits %s where reader expects %s" % (pos, wi.describe(), ri.describe()))
                 return
             if wi.kind in ("bytes", "nested"):
@@ -1205,6 +1230,11 @@ def _extent(db, rep, only):
                         undecided += 1
                         continue
                     if any(a[0] in ("local",) for a in symx.atoms(ew) | symx.atoms(ea)):
+                        undecided += 1
+                        continue
+                    if not c.is_ctor and any(a[0] == "param" for a in symx.atoms(ea)):
+                        # a helper that allocates for an extent handed in by its caller (allocateZeroed(bits)): what the parameter
+                        # holds is the caller's business, not related here
                         undecided += 1
                         continue
                     # values computed by a loop before the allocation (e.g. a bit total) are the same symbol on both sides
